@@ -9,7 +9,7 @@ HOOKS = {
     "guard": "cfg(kani) (container/error model switches) and cfg(any(kani, verif_hooks)) (re-exports of crate-private items)",
     "enable": "cargo kani sets --cfg kani itself; the native replayer is built with RUSTFLAGS='--cfg verif_hooks'",
     "baseline_off_cmd": "cd /repo && cargo test --workspace --no-fail-fast --offline",
-    "source_commits": ["6a5f543"],
+    "source_commits": ["6a5f543", "a30e7f4"],
     "fix_commits": ["8964a4c", "7774dd1", "c5a8780", "96afd96", "68fff19"],
     "add_only": True,
 }
